@@ -34,7 +34,8 @@ def check_lookups(ds, exp, dims, what):
     """lookup by name, letter, position, membership, index, size, shape, total size agree with the order"""
     probs = []
     try:
-        if list(ds.letters) != [dims[e].letter for e in exp] or list(ds.names) != [dims[e].name for e in exp]:
+        names = [dims[e].name for e in exp]
+        if list(ds.letters) != [dims[e].letter for e in exp] or list(ds.names) != names:
             probs.append(f"{what}: letters/names {ds.letters}/{ds.names} != model {exp}")
             return probs
         if tuple(ds.shape) != tuple(len(dims[e].items) for e in exp):
@@ -47,11 +48,13 @@ def check_lookups(ds, exp, dims, what):
             probs.append(f"{what}: bool/string disagree with the model")
         for i, e in enumerate(exp):
             d = dims[e]
-            for key in (d.letter, d.name, i):
+            unique_name = names.count(d.name) == 1      # a name shared by two dimensions of the set identifies neither
+            for key in (d.letter, d.name, i) if unique_name else (d.letter, i):
                 got = ds[key]
                 if got.name != d.name or got.letter != d.letter or list(got.items) != list(d.items):
                     probs.append(f"{what}: lookup [{key!r}] returned {got.name}")
-            if ds.index(d.letter) != i or ds.index(d.name) != i or ds.size(d.letter) != len(d.items) or ds.size(d.name) != len(d.items):
+            if ds.index(d.letter) != i or ds.size(d.letter) != len(d.items) or \
+                    (unique_name and (ds.index(d.name) != i or ds.size(d.name) != len(d.items))):
                 probs.append(f"{what}: index/size of {d.letter!r} disagree with the order")
             if d.letter not in ds or d.name not in ds or d not in ds:
                 probs.append(f"{what}: membership of {d.letter!r}")
@@ -66,27 +69,32 @@ def check_lookups(ds, exp, dims, what):
 
 def run_history(vec):
     problems = run_history_in(vec, 0)
+    if not problems and len(vec["hist"]) > 1 and any(st["inplace"] for st in vec["hist"]):
+        # the same history WITHOUT looking at any object between the calls (lookups may refresh what an object remembers about
+        # itself): every register and every lookup form is compared with the model only after the last call
+        problems = ["[no lookups between the calls] " + p for p in run_history_in(vec, 0, blind=True)]
     if not problems and hash(json.dumps(vec["hist"], sort_keys=True)) % 8 == 0:
         # the same history over LONG dimensions (tens of thousands of items; no array is allocated): sizes are exact integers
         problems = [f"[dimensions inflated by {INFLATE} items] " + p for p in run_history_in(vec, INFLATE)]
     return problems
 
 
-def run_history_in(vec, inflate):
+def run_history_in(vec, inflate, blind=False):
     dims = make_dims(vec["alphabet"], inflate)
     hist = vec["hist"]
     if not hist:
         return []
-    # (sets in which two dimensions share a name are outside the model: lookup by name would be ambiguous)
-    for st in hist:
-        for exp in list(st["post"].values()) + list(st["pre"].values()):
-            if exp != ["None"] and len({dims[e].name for e in exp}) != len(exp):
-                return []
     regs = {}
     for r, s in hist[0]["pre"].items():
         regs[r] = None if s == ["None"] else DimensionSet(dim_list=[dims[e] for e in s])
     arr = None
     problems = []
+    if blind:
+        for r, s in hist[0]["pre"].items():
+            if s != ["None"]:
+                problems += check_lookups(regs[r], s, dims, f"initial register {r}")      # (every lookup form used once before the history)
+        if problems:
+            return problems
     for n, st in enumerate(hist):
         op, recv, dst, inplace, args, outcome = st["op"], st["recv"], st["dst"], st["inplace"], st["args"], st["outcome"]
         where = f"step {n + 1} {op}({recv}->{dst if not inplace else 'inplace'}, {args}): "
@@ -107,7 +115,7 @@ def run_history_in(vec, inflate):
                     result = s ^ t
                 else:
                     result = s + t
-                if len(t) == 1 and op != "xor":
+                if len(t) == 1 and op != "xor" and not blind:
                     # a single Dimension as right operand means the one-element set
                     # ('^' with a bare Dimension raises TypeError in the library - loud, and outside C14, which speaks of sets)
                     fn = {"union": lambda: s | t[0], "inter": lambda: s & t[0], "diff": lambda: s - t[0], "xor": lambda: s ^ t[0],
@@ -170,6 +178,8 @@ def run_history_in(vec, inflate):
                     problems.append(where + f"returned {type(result).__name__}")
                     return problems
                 regs[dst] = result
+        if blind and n < len(hist) - 1:
+            continue
         # every register against the model
         for r, exp in st["post"].items():
             got = regs[r]
